@@ -211,10 +211,9 @@ func fieldToType(f *ast.Field) (string, bool) {
 // extractArgumentsType returns the name of the type of each input argument.
 func extractArgumentsType(f *ast.FuncDecl) ([]string, bool) {
 	var fields []*ast.Field
-	if f.Recv != nil {
-		if len(f.Recv.List) != 1 {
-			panic("Expect only one receiver; please fix panicparse's code")
-		}
+	// go/parser accepts zero or many receivers ("func () f()"); only a single one
+	// is a method.
+	if f.Recv != nil && len(f.Recv.List) == 1 {
 		// If it is an object receiver (vs a pointer receiver), its address is not
 		// printed in the stack trace so it needs to be ignored.
 		if _, ok := f.Recv.List[0].Type.(*ast.StarExpr); ok {
